@@ -44,7 +44,7 @@ func (c10) Batches(tier string, seed uint64) []core.Batch {
 
 // every exported field of every typed struct must have been compared.
 func (c10) Mandatory(tier string) []string {
-	m := []string{"layout:folded-comma-list", "layout:single-line-comma-list", "layout:folded-dependency", "layout:checksum-block", "layout:blanks-before-separator", "size:>=2^31", "accessor:Maintainers", "accessor:HasArchAll:true",
+	m := []string{"layout:folded-comma-list", "layout:single-line-comma-list", "layout:folded-dependency", "layout:checksum-block", "layout:blanks-before-separator", "size:>=2^31", "size:int-field>=2^31", "entry:ParseDscFile-relative-path", "entry:ParseChangesFile", "entry:ParseControlFile", "accessor:Maintainers", "accessor:HasArchAll:true",
 		"accessor:HasArchAll:false", "accessor:AbsFiles", "accessor:DebianSource:found", "accessor:DebianSource:none", "accessor:GetDSC", "accessor:SourcePackage:binnmu",
 		"accessor:SourcePackage:default", "accessor:GetDepends", "accessor:GetBuildDepends", "accessor:Checksums:sha256", "accessor:Checksums:sha512", "accessor:Checksums:none",
 		"accessor:SourceName", "arch:two-part", "arch:all", "arch:wildcard"}
@@ -547,6 +547,38 @@ func (p c10) dsc(c *core.C, t *core.T, r *core.Rand) {
 	}
 	compareStruct(c, "DSC", *got, d.want, text)
 	comparePara(c, "DSC", got.Paragraph, text, 0)
+	// the file-based entry point, given a RELATIVE path: Filename (and so AbsFiles) must not depend on the working directory
+	{
+		dir := filepath.Join(t.WorkDir, "c10dsc", "sub")
+		os.MkdirAll(dir, 0o755)
+		fp := filepath.Join(dir, "rel.dsc")
+		os.WriteFile(fp, []byte(text), 0o644)
+		old, _ := os.Getwd()
+		if os.Chdir(filepath.Dir(dir)) == nil {
+			gf, err := control.ParseDscFile(filepath.Join("sub", "rel.dsc"))
+			os.Chdir(old)
+			if err != nil || gf == nil {
+				c.Failf("ParseDscFile(relative path) failed: %v", err)
+			} else {
+				if gf.Filename != fp {
+					c.Failf("ParseDscFile(\"sub/rel.dsc\") in %s: Filename = %q, want the absolute path %q", filepath.Dir(dir), gf.Filename, fp)
+				}
+				w2 := map[string]interface{}{}
+				for k, v := range d.want {
+					w2[k] = v
+				}
+				w2["Filename"] = fp
+				compareStruct(c, "DSC", *gf, w2, text)
+				for i, f := range gf.AbsFiles() {
+					if i < len(files) && filepath.Clean(f.Filename) != filepath.Join(dir, files[i]) {
+						c.Failf("ParseDscFile(relative).AbsFiles()[%d] = %q, want %q", i, f.Filename, filepath.Join(dir, files[i]))
+					}
+				}
+				c.Cover("entry:ParseDscFile-relative-path")
+			}
+		}
+		os.Remove(fp)
+	}
 	c.Cover("layout:checksum-block")
 	coverLayout(c, d)
 	coverArchs(c, archs)
@@ -567,6 +599,9 @@ func (p c10) dsc(c *core.C, t *core.T, r *core.Rand) {
 	}
 	c.Cover(fmt.Sprintf("accessor:HasArchAll:%v", hasAll))
 	abs := got.AbsFiles()
+	if again := got.AbsFiles(); !reflect.DeepEqual(abs, again) {
+		c.Failf("DSC.AbsFiles() gives different answers on two calls: %v / %v", abs, again)
+	}
 	if len(abs) != len(files) {
 		c.Failf("DSC.AbsFiles() has %d entries for %d files", len(abs), len(files))
 	} else {
@@ -672,6 +707,25 @@ func (p c10) changes(c *core.C, t *core.T, r *core.Rand) {
 	}
 	compareStruct(c, "Changes", *got, d.want, text)
 	comparePara(c, "Changes", got.Paragraph, text, 0)
+	{
+		os.WriteFile(path, []byte(text), 0o644)
+		old, _ := os.Getwd()
+		if os.Chdir(dir) == nil {
+			gf, err := control.ParseChangesFile(filepath.Base(path))
+			os.Chdir(old)
+			if err != nil || gf == nil {
+				c.Failf("ParseChangesFile(relative path) failed: %v", err)
+			} else {
+				compareStruct(c, "Changes", *gf, d.want, text)
+				c.Cover("entry:ParseChangesFile")
+			}
+		}
+		os.Remove(path)
+	}
+	// accessors are asked twice: the second answer must equal the first
+	if a1, a2 := got.AbsFiles(), got.AbsFiles(); !reflect.DeepEqual(a1, a2) {
+		c.Failf("Changes.AbsFiles() gives different answers on two calls: %v / %v", a1, a2)
+	}
 	coverLayout(c, d)
 	c.Nontrivial()
 	abs := got.AbsFiles()
@@ -779,6 +833,17 @@ func (p c10) control(c *core.C, r *core.Rand) {
 		text += strings.Repeat("\n", r.Range(1, 2)) + b.sb.String()
 	}
 	path := "/src/debian/control"
+	if tw := os.Getenv("VERIF_WORK_RUN"); tw != "" {
+		fp := filepath.Join(tw, fmt.Sprintf("c10control-%d", os.Getpid()))
+		if os.WriteFile(fp, []byte(text), 0o644) == nil {
+			gf, err := control.ParseControlFile(fp)
+			if err != nil || gf == nil || gf.Filename != fp || len(gf.Binaries) != nb || gf.Source.Source != src {
+				c.Failf("ParseControlFile(%q) = %+v, %v; want Filename %q, %d binaries, source %q", fp, gf, err, fp, nb, src)
+			}
+			c.Cover("entry:ParseControlFile")
+			os.Remove(fp)
+		}
+	}
 	got, err := control.ParseControl(bufio.NewReader(strings.NewReader(text)), path)
 	if err != nil || got == nil {
 		c.Failf("ParseControl failed on a well-formed debian/control: %v\ndocument: %q", err, text)
@@ -836,6 +901,9 @@ func (p c10) packages(c *core.C, r *core.Rand) {
 		d.raw("Version", ver.Text)
 		d.want["Version"] = libVer(ver.V)
 		sz := r.Intn(1 << 20)
+		if r.Chance(1, 4) {
+			sz = int(r.Pick3(1<<31, 1<<32+1, 1<<35))
+		}
 		d.raw("Installed-Size", fmt.Sprint(sz))
 		d.want["InstalledSize"] = sz
 		d.scalar(r, "Maintainer", "Maintainer", person(r))
@@ -871,6 +939,10 @@ func (p c10) packages(c *core.C, r *core.Rand) {
 		d.scalar(r, "Priority", "Priority", "optional")
 		d.scalar(r, "Filename", "Filename", "pool/main/"+pkg[:1]+"/"+pkg+"/"+pkg+"_1_amd64.deb")
 		fsz := r.Intn(1 << 30)
+		if r.Chance(1, 4) { // packages over 2 GiB exist
+			fsz = int(r.Pick3(1<<31-1, 1<<31, 1<<32, 1<<33+5, 1<<40))
+			c.Cover("size:int-field>=2^31")
+		}
 		d.raw("Size", fmt.Sprint(fsz))
 		d.want["Size"] = fsz
 		d.scalar(r, "MD5sum", "MD5sum", hexHash(r, 32))
